@@ -495,6 +495,19 @@ theorem body_code (v : Variant) (s : Script α) (st : St α) :
   · rfl
   · split <;> simp [tailLate_code, tailEarly_code]
 
+/-- exit code of the whole `try` block from the initial state, in closed form -/
+theorem body_code_eq (v : Variant) (s : Script α) :
+    (body v s (st0 s)).code =
+      if s.init ≠ .ok ∨ cbRaises s then some (-1)
+      else if isPrediction (effK0 s.k0) = true then (if predictionOk s then some 1 else some (-1))
+      else if s.traits.hasCTO = false ∧ integSmt (effK0 s.k0) ≠ .noStiffness then some (-1)
+      else if integrationOk s ∧ tailOk s then none else some (-1) := by
+  rw [body_code, pre_code]
+  by_cases h1 : s.init ≠ .ok ∨ cbRaises s <;> by_cases h3 : isPrediction (effK0 s.k0) = true <;>
+    by_cases h4 : s.traits.hasCTO = false ∧ integSmt (effK0 s.k0) ≠ .noStiffness <;>
+    by_cases h5 : integrationOk s <;> by_cases h6 : predictionOk s <;> by_cases h7 : tailOk s <;>
+    simp [h1, h3, h4, h5, h6, h7]
+
 /-- the return value in terms of the exit code of the `try` block -/
 theorem integrate_ret_some (v : Variant) (s : Script α) {c : Int}
     (h : (body v s (st0 s)).code = some c) : (integrate v s).ret = c := by
